@@ -603,7 +603,9 @@ def run(chk: common.Check) -> None:
     for sh in results:
         for i, per_hook, msgs, err in sh:
             if err:
-                raise RuntimeError(f'harness failure in scenario {i}: {err}')
+                # the real registrars raised (or the scenario could not be driven to its end): reported with the stream as a failing input
+                impl[i] = ([], [f'the scenario did not complete: {err[:300]}'])
+                continue
             impl[i] = (per_hook, msgs)
     model_out = None
     model_err = None
